@@ -114,12 +114,35 @@ def walk(c, fid, tag, ref, direction, limit=70000):
     return found
 
 
+def walk_nextread(c, fid, tag, ref, limit=70000):
+    """the same walk through an access handle: Hstartread on the pattern, then Hnextread(.., DF_CURRENT)"""
+    L = c.L
+    found = []
+    aid = L.Hstartread(fid, tag, ref)
+    if aid == FAIL:
+        return found
+    ft, fr, fl = c_uint16(0), c_uint16(0), c_int32(0)
+    while len(found) < limit:
+        if L.Hinquire(aid, None, byref(ft), byref(fr), byref(fl), None, None, None, None) == FAIL:
+            found.append((-1, -1, -1))
+            break
+        if base_tag(ft.value) != VERSION_TAG:
+            found.append((base_tag(ft.value), fr.value, fl.value))
+        if L.Hnextread(aid, tag, ref, DF_CURRENT) == FAIL:
+            break
+    L.Hendaccess(aid)
+    return found
+
+
 @op("HDir", "Walk")
 def hd_walk(c, a):
     fid = c.h["F"]
     found = walk(c, fid, a["tag"], a["ref"], DF_FORWARD if a["dir"] == 0 else DF_BACKWARD)
     lst = sorted([t, r, c.L.Hlength(fid, t, r)] for (t, r) in found)
-    return {"list": lst}
+    o = {"list": lst}
+    if a["dir"] == 0:
+        o["nlist"] = sorted([t, r, n] for (t, r, n) in walk_nextread(c, fid, a["tag"], a["ref"]))
+    return o
 
 
 @op("HDir", "Probe")
